@@ -72,6 +72,8 @@ type FuncCtx struct {
 	fnName   string
 	oblNames map[string]int
 	specFnDeclared map[string]bool
+	specFnHeaps    map[string][]HeapKey // heaps a spec function's body reads: hidden parameters
+	immutKeys      map[string]string    // heap name -> Type.field of declared immutable fields (immutable.go)
 	axiomsAdded bool
 	inputs   []ModelVar
 	nonNil   map[string]bool
@@ -99,7 +101,7 @@ type FuncCtx struct {
 func newFuncCtx(eng *Engine, mode Mode, name string) *FuncCtx {
 	c := &FuncCtx{eng: eng, so: newSorts(mode), mode: mode, symIdx: map[string]int{}, needed: map[string]bool{},
 		strLits: map[string]string{}, notesSet: map[string]bool{}, assumptions: map[string]bool{}, typeIDs: map[string]int{}, fnName: name,
-		oblNames: map[string]int{}, specFnDeclared: map[string]bool{}, heapKeys: map[string]HeapKey{}}
+		oblNames: map[string]int{}, specFnDeclared: map[string]bool{}, specFnHeaps: map[string][]HeapKey{}, heapKeys: map[string]HeapKey{}}
 	return c
 }
 
